@@ -28,6 +28,16 @@ P = {
    "Static analysis. For all 40 strategy types: len(actions) = max(n, warm-up) (so exactly n beyond the warm-up and never fewer than n), anchor exactly 0, the final prefix is strategy.Hold and covers every element computed from another Shift's fill value, for ALL admissible configurations and n >= 0; compounds/decorators against the Strategy contract; every registry entry's type was analysed; Action values originate only from the three constants.",
    "Trusts go/types, the Strategy interface contract for wrapped strategies, sub-indicator contracts, Γ, Fourier–Motzkin. Alligator and SMMA strategies emit n+1 actions one day late (pinned by their tests): known findings.",
    "§4 C05"),
+ "C10": (True,
+   "typed-AST lints on every asset.Repository implementation: synchronous consumption and error propagation in Append, decision table of the GetSince filter over {<,=,>}, zero-time returns carry an error",
+   "Static analysis of structural necessary conditions only: every Append consumes its input in the caller's goroutine and returns the error of each write (needed for read-your-writes); the GetSince filter closures keep exactly the orderings {=,>} of (snapshot date, bound), decided on the finite ordering domain and identically in the sibling implementations; LastDate never returns the zero time with a nil error; unknown assets are errors. Equivalence with a map under arbitrary histories (file system, SQL driver, codecs) is not decided.",
+   "Trusts go/types and the semantics of time.Time.Equal/After/Before; the SQL dialect text is not analysed. Repaired: SQLRepository.Append was asynchronous (dd89e0d).",
+   "§4 C10"),
+ "C11": (True,
+   "typed-AST agreement lints between encoder and decoder siblings (reflect kinds, bit-size table, float/time arguments, constant-folded open flags, header-map indexing, JSON delimiters)",
+   "Static analysis of agreement rules without which some value cannot round-trip: same reflect kinds on both sides, a bit size for every sized kind used identically by formatter and parser, FormatFloat(…, -1, bits), one layout value for Format and Parse, WriteToFile truncates and AppendToFile appends (flag sets constant-folded), append only to an existing non-empty file, records indexed through the header map, JSON delimiters agree. Equality of written and re-read values for all inputs (strconv, encoding/csv, encoding/json, time) is not decided.",
+   "Trusts go/types constant folding and the documented semantics of the strconv/os functions named. Repaired: WriteToFile lacked O_TRUNC (ac57338); kindToBits lacked Uint8 (6348dc3).",
+   "§4 C11"),
  "C14": (True,
    "stream-shape calculus on every strategy Report: each column stream vs. the date stream (length and anchor), symbolic in the periods",
    "Static analysis. The report template zips the date stream with one Value() per column per row; for all 40 Report methods every column found in the constructed helper.Report is proved to have exactly the date stream's length and anchor for all admissible configurations and every n beyond the warm-up.",
@@ -38,6 +48,16 @@ P = {
    "Static analysis. For every indicator Compute the number of values on each output and the anchor of its first value are derived from the current source as piecewise-linear expressions of the input length n and the configuration symbols, and proved equal to max(0, n - IdlePeriod()) / IdlePeriod() for ALL n >= 0 and ALL admissible configurations; unchecked receives whose value is sent on are proved to find an element. This is the quantifier the tests cannot reach (they pin one configuration and n = 251). Values are not decided.",
    "Trusts go/types, the admissibility table Γ, the helper.Ring fullness model and the in-house Fourier–Motzkin procedure; helper stages are re-summarised from helper/ on every run (C16 checks those summaries against the slice models). Sub-indicators are used through their declared IdlePeriod contract in the quick tier; the thorough tier re-derives everything contract-free.",
    "§4 C02"),
+ "C17": (True,
+   "typed-AST lints with finite decision tables over the orderings {<,=,>}: no ordering by the sign of a difference in generic numeric code; Insert/search routing agreement; Ring index discipline",
+   "Static analysis of three structural necessary conditions, not of model conformance: ordering decisions on generic numeric values use comparison operators (a difference overflows for integer element types); evaluated on the three orderings, Insert and searchNode route smaller and larger keys to the same side and search stops on equality; every Ring buffer index is begin/end or reduced modulo len(buffer) and begin/end advance only through nextIndex = (i+1) % len(buffer). Conformance to the FIFO/multiset models under arbitrary operation histories is not decided.",
+   "Trusts go/types; values are only compared, so three orderings are exhaustive for the routing rule. Repaired: searchNode ordered by subtraction (930a477).",
+   "§4 C17"),
+ "C19": (True,
+   "typed-AST + go/cfg path lints on the reader goroutines and the HTTP client: bounds guard before indexing a decoded record, close deferred before any exit, error branches leave the loop, Body.Close on every path after a successful request, status check, file closed after the reader",
+   "Static analysis of this repository's own reader code, not of the decoders: every index into a decoded CSV record is guarded against len(record); every reader goroutine closes its channel on all exits (go/cfg may-analysis); every error branch in a reader loop leaves the loop; ReadFromFile closes the file after the reader finished; in the Tiingo client a non-200 status is an error before decoding and the response body is closed on every control-flow path after a successful request; JSONToChan checks the opening delimiter. The behaviour of encoding/csv, encoding/json and net/http on arbitrary bytes is not decided.",
+   "Trusts go/types, go/cfg, and encoding/csv's field-count check for rows after the first. Repaired: unguarded record index (029c59c), Tiingo body leaks (d70d16c).",
+   "§4 C19"),
  "C16": (True,
    "token-count abstract interpretation of every goroutine stage in helper/ (Engine B) compared with a frozen slice-model table by exact linear entailment",
    "Static analysis. For each stream helper the output length, the number of elements taken from every input, consumption to the end, anchor, fill prefix, output capacity, close-on-every-path and close/drain order are derived from the helper's own source for symbolic input lengths (one symbol per input) and parameters, and proved equal to the slice model for ALL lengths and parameters in the documented domain. Which values are emitted is not decided.",
